@@ -91,12 +91,28 @@ class UnderTestError(Exception):
         self.frame = innermost_frame(exc)
 
 
+def _rss_mb() -> float:
+    try:
+        with open("/proc/self/statm") as f:
+            return int(f.read().split()[1]) * os.sysconf("SC_PAGE_SIZE") / 1e6
+    except (OSError, ValueError, IndexError):
+        return 0.0
+
+
 class CaseTimeout(BaseException):
     """The per-case wall-clock budget ran out: the case is inconclusive (skipped)."""
 
 
+class CaseTooLarge(CaseTimeout):
+    """The case outgrew the per-shard memory budget: inconclusive (skipped), like a timeout."""
+
+
+CASE_RSS_MB = float(os.environ.get("VP_CASE_RSS_MB", "3000"))  # 16 shards must fit into the machine together
+
+
 class case_timeout:  # noqa: N801
-    """Context manager: raise `CaseTimeout` in the main thread after `seconds`."""
+    """Context manager: raise `CaseTimeout` in the main thread after `seconds`, `CaseTooLarge` when the resident
+    set of the process exceeds CASE_RSS_MB (checked once per second)."""
 
     def __init__(self, seconds: float) -> None:
         self.seconds = seconds
@@ -107,11 +123,16 @@ class case_timeout:  # noqa: N801
         import threading  # noqa: PLC0415
 
         if self.seconds > 0 and threading.current_thread() is threading.main_thread():
+            deadline = time.time() + self.seconds
+
             def handler(signum, frame):
-                raise CaseTimeout
+                if time.time() >= deadline:
+                    raise CaseTimeout
+                if _rss_mb() > CASE_RSS_MB:
+                    raise CaseTooLarge
 
             self.old = signal.signal(signal.SIGALRM, handler)
-            signal.setitimer(signal.ITIMER_REAL, self.seconds)
+            signal.setitimer(signal.ITIMER_REAL, min(1.0, self.seconds), 1.0)
             self.active = True
         return self
 
@@ -221,14 +242,6 @@ RSS_LIMIT_MB = float(os.environ.get("VP_RSS_MB", "2500"))
 _MEMORY_GUARD = {"cleared": 0, "peak_mb": 0.0}
 
 
-def _rss_mb() -> float:
-    try:
-        with open("/proc/self/statm") as f:
-            return int(f.read().split()[1]) * os.sysconf("SC_PAGE_SIZE") / 1e6
-    except (OSError, ValueError, IndexError):
-        return 0.0
-
-
 def memory_guard() -> None:
     """Long campaigns on large expressions grow without bound through two caches that are not part of anything a
     property speaks about: sympy's global expression cache and the source text of every lambdified function
@@ -291,9 +304,16 @@ class Collector:
                     or time.time() - self.first_fail_t > self.shrink_s
                 ):
                     return None
+        if source == "generated" and _rss_mb() > CASE_RSS_MB:
+            memory_guard()
+            if _rss_mb() > CASE_RSS_MB:  # what an earlier case left behind cannot be returned: stop running cases
+                self.inconclusive += 1
+                return None
         try:
             with case_timeout(self.case_timeout_s):
                 res = self.mod.run_case(desc)
+        except CaseTooLarge:
+            res = skip("case_memory_limit", limit_mb=CASE_RSS_MB)
         except CaseTimeout:
             res = skip("case_timeout", timeout_s=self.case_timeout_s)
         except UnderTestError as exc:
